@@ -33,17 +33,17 @@ def plan(prop, tier):
                 ('L6', lambda: (s for s in LY.L6(tier) if s.sched == 'fwd')), ('L4clock', lambda: LY.L4_inputs(tier, f)),
                 ('L4cal', lambda: LY.L4_inputs(tier, f))],
         'C03': [('L1', lambda: LY.L1(tier)), ('L1x', lambda: LY.L1x(tier)), ('L2', lambda: LY.L2(tier)), ('L3', lambda: LY.L3(tier)),
-                ('L7', lambda: LY.L3(tier, decimal=True)), ('L4cal', lambda: LY.L4_inputs(tier))],
+                ('L7', lambda: LY.L3(tier, decimal=True)), ('L4cal', lambda: LY.L4_inputs(tier)), ('L3long', lambda: LY.L3long(tier))],
         'C04': [('L1', lambda: LY.L1(tier)), ('L1x', lambda: LY.L1x(tier)), ('L2', lambda: LY.L2(tier)), ('L3', lambda: LY.L3(tier)),
-                ('L7', lambda: LY.L3(tier, decimal=True))],
+                ('L7', lambda: LY.L3(tier, decimal=True)), ('L3long', lambda: LY.L3long(tier))],
         'C07': [('L1', lambda: LY.L1(tier)), ('L1x', lambda: LY.L1x(tier)), ('L2', lambda: LY.L2(tier)), ('L3', lambda: LY.L3(tier)),
                 ('L6', lambda: LY.L6(tier)), ('L2b', lambda: LY.L2b(tier))],
         'C08': [('L1', lambda: LY.L1(tier, f, (True, False))), ('L1x', lambda: LY.L1x(tier, f)), ('L3', lambda: LY.L3(tier, f)),
-                ('L7', lambda: LY.L3(tier, f, decimal=True)), ('L4cal', lambda: LY.L4_inputs(tier, f))],
+                ('L7', lambda: LY.L3(tier, f, decimal=True)), ('L4cal', lambda: LY.L4_inputs(tier, f)), ('L3long', lambda: LY.L3long(tier, f))],
         'C09': [('L1', lambda: LY.L1(tier, b)), ('L1x', lambda: LY.L1x(tier, b)), ('L3', lambda: LY.L3(tier, b)), ('L4cal', lambda: LY.L4_inputs(tier, b)),
-                ('L2', lambda: LY.L2(tier, b))],
+                ('L2', lambda: LY.L2(tier, b)), ('L3long', lambda: LY.L3long(tier, b))],
         'C14': [('L1', lambda: LY.L1(tier, include_cycles=True)), ('L1x', lambda: LY.L1x(tier)), ('L2', lambda: LY.L2(tier)), ('L3', lambda: LY.L3(tier)),
-                ('L6', lambda: LY.L6(tier, include_cycles=True)), ('L7', lambda: LY.L3(tier, decimal=True)), ('L5', lambda: LY.L5(tier)), ('L2b', lambda: LY.L2b(tier)),
+                ('L6', lambda: LY.L6(tier, include_cycles=True)), ('L7', lambda: LY.L3(tier, decimal=True)), ('L5', lambda: LY.L5(tier)), ('L2b', lambda: LY.L2b(tier)), ('L3long', lambda: LY.L3long(tier)),
                 ('L4cal', lambda: LY.L4_inputs(tier))],
     }
     return P[prop]
